@@ -91,8 +91,8 @@ def coverCount (x : Nat) : List VDigits → Nat
 /-! ### Query specification over the log of timestamped sets -/
 
 /-- A live set event: row, column, timestamp (`none` = set without timestamp), and whether the
-write also went to the standard view (`SetBit`/timestamped `Import`: unless the field has none;
-untimestamped `Import`: always; a clear-`Import` takes it away again). -/
+write also went to the standard view (`SetBit`/`Import`: unless the field has none; a
+clear-`Import` takes it away again). -/
 structure Ev where
   row : Nat
   col : Nat
@@ -136,10 +136,10 @@ def viewsWithBit (q : Quantum) (log : List Ev) (r c : Nat) : List VName :=
     | some t => (viewsByTime t q).map .tv)
   (std ++ tvs).eraseDups
 
-/-- Log after a set-`Import` of `bits` (each written like `SetBit`, except that a bit without
-timestamp goes to the standard view even when the field was created without one). -/
+/-- Log after a set-`Import` of `bits`: each bit is written like `SetBit` writes it (a bit without
+timestamp on a field without standard view is written nowhere). -/
 def importSet (noStd : Bool) (log : List Ev) (bits : List (Nat × Nat × Option Civil)) : List Ev :=
-  log ++ bits.map (fun b => ⟨b.1, b.2.1, b.2.2, b.2.2.isNone || !noStd⟩)
+  log ++ (bits.filter (fun b => b.2.2.isSome || !noStd)).map (fun b => ⟨b.1, b.2.1, b.2.2, !noStd⟩)
 
 /-- Log after a clear-`Import` of `bits` (no timestamps): it only touches the standard view, so the
 listed bits stay live in their time views. -/
